@@ -745,7 +745,8 @@ class BinaryOp(Expr):
             # it is left to be raised at run time (see Expr.fold)
             if isinstance(x, complex) or not self.type.can_hold(x):
                 raise OverflowError
-            return x
+            # the value as a cell of the result type holds it
+            return self.type.coerce(x)
 
         result = {
             Operator.CMP_EQ: lambda a, b: qbool(a == b),
